@@ -2,6 +2,7 @@ SPECIFICATION Spec
 CONSTANTS
   KeyOrder <- KO2
   Ctxs <- CtxQ2
+  Flows <- SingleFlows
   Calls <- CallsQuick
 INVARIANT GetIsRef
 INVARIANT ContainsIsRef
@@ -10,4 +11,5 @@ INVARIANT UpdateIsRef
 INVARIANT DeleteIsRef
 INVARIANT FuwIsRef
 PROPERTY QueriesPure
+PROPERTY ElementStateless
 CHECK_DEADLOCK FALSE
